@@ -29,7 +29,9 @@ import (
 	"io"
 	"math"
 	"math/rand"
+	"net/http"
 	"net/http/httptest"
+	"runtime"
 	"sort"
 	"strconv"
 	"strings"
@@ -78,7 +80,43 @@ type Case struct {
 	GoRows  string    `json:"gorows"` // "ok" | "skip:<why>" | "diff:<what>"  (encoding/json parse compared with the rows)
 	NumLoss string    `json:"numloss,omitempty"`
 	Panic   string    `json:"panic,omitempty"`
+	With    *Case     `json:"with,omitempty"` // overlapping requests: the request served inside every write of this one
 	Skip    string    `json:"skip,omitempty"` // the case could not be observed (no Tail frame within the time limit on a loaded machine)
+}
+
+// ---------------------------------------------------------------------------------- overlapping requests
+
+// A response writer (and the consumer of a chunk channel) may take arbitrarily long before it has
+// consumed the bytes it was handed: a slow client. While it is blocked other requests are served.
+// interleave, when set, is that "other request": it runs to completion inside every Write of the
+// observed request (and before every received chunk is copied), on the same goroutine, so with
+// GOMAXPROCS(1) it borrows exactly the pooled stream the observed request may have given back
+// too early. Only then are the bytes copied. The io.Writer contract allows this (p is valid until
+// Write returns); an encoder that hands over memory it no longer owns gets its body overwritten.
+var interleave func()
+
+func duringWrite() {
+	if f := interleave; f != nil {
+		interleave = nil // the other request's own writes are plain
+		f()
+		interleave = f
+	}
+}
+
+type rec struct {
+	hdr  http.Header
+	buf  []byte
+	code int
+}
+
+func newRec() *rec                    { return &rec{hdr: http.Header{}} }
+func (r *rec) Header() http.Header    { return r.hdr }
+func (r *rec) WriteHeader(c int)      { r.code = c }
+func (r *rec) body() string           { return string(r.buf) }
+func (r *rec) Write(p []byte) (int, error) {
+	duringWrite()
+	r.buf = append(r.buf, p...)
+	return len(p), nil
 }
 
 // ---------------------------------------------------------------------------------- generators
@@ -338,6 +376,7 @@ func runStreams(c *Case) string {
 	go service.VerifC15ExportStreamsValue(out, res)
 	var sb strings.Builder
 	for o := range res {
+		duringWrite()
 		sb.WriteString(o.Str)
 	}
 	// the producer may still be blocked when the encoder returned early (error entry): drain
@@ -408,6 +447,7 @@ func planSetup(c *Case, matrix bool) *service.QueryRangeService {
 func drain(ch chan model.QueryRangeOutput) string {
 	var sb strings.Builder
 	for o := range ch {
+		duringWrite()
 		sb.WriteString(o.Str)
 	}
 	return sb.String()
@@ -582,10 +622,10 @@ func genPromCase(r *rand.Rand, id int, kind string) Case {
 }
 
 func runProm(c *Case) string {
-	w := httptest.NewRecorder()
+	w := newRec()
 	if c.Kind == "promerror" {
 		controllerv1.PromError(500, hx.UnHex(c.Items[0]), w)
-		return w.Body.String()
+		return w.body()
 	}
 	lbls := func(i int) labels.Labels {
 		var l labels.Labels
@@ -645,7 +685,7 @@ func runProm(c *Case) string {
 	if err := controllerv1.VerifC15WriteResponse(&res, w); err != nil {
 		panic(err)
 	}
-	return w.Body.String()
+	return w.body()
 }
 
 // goProm: encoding/json parse compared with the series
@@ -931,7 +971,7 @@ func (f *fakeTempoT) SearchTraceQL(ctx context.Context, q string, limit int, fro
 
 func runTempo(c *Case) string {
 	ctl := &controllerv1.TempoController{Service: &fakeTempoT{c: c}}
-	w := httptest.NewRecorder()
+	w := newRec()
 	c.Items = nil
 	switch c.Kind {
 	case "trace":
@@ -962,7 +1002,7 @@ func runTempo(c *Case) string {
 		}
 		ctl.Search(w, httptest.NewRequest("GET", "/api/search?q=%7B%7D", nil))
 	}
-	return w.Body.String()
+	return w.body()
 }
 
 // goTempo: encoding/json parse: the spliced pieces, in order
@@ -1103,13 +1143,13 @@ func runList(c *Case) string {
 	switch c.Kind {
 	case "tags", "tagvalues":
 		ctl := &controllerv1.TempoController{Service: &fakeTempo{items: items}}
-		w := httptest.NewRecorder()
+		w := newRec()
 		if c.Kind == "tags" {
 			ctl.Tags(w, httptest.NewRequest("GET", "/api/search/tags", nil))
 		} else {
 			ctl.Values(w, httptest.NewRequest("GET", "/api/search/tag/x/values", nil))
 		}
-		return w.Body.String()
+		return w.body()
 	case "labels", "series":
 		reg := newRegistry(items)
 		defer dropRegistry(reg)
@@ -1639,6 +1679,7 @@ func finishRows(c *Case, body string) {
 }
 
 func main() {
+	runtime.GOMAXPROCS(1) // one P: a stream returned to jsoniter's sync.Pool is the next one borrowed
 	f := hx.ParseFlags()
 	out := hx.OpenOut(f.Out)
 	defer out.Close()
@@ -1648,7 +1689,7 @@ func main() {
 			if err := json.Unmarshal(b, &c); err != nil {
 				panic(err)
 			}
-			run(&c)
+			runOverlapped(&c)
 			out.Put(c)
 		})
 		return
@@ -1690,4 +1731,56 @@ func main() {
 	for i := range cases {
 		out.Put(cases[i])
 	}
+	// overlapping requests: every case of these kinds is observed a second time while another request
+	// of the same family is served inside each of its writes; the body must still be its own document
+	var prev = map[string]*Case{}
+	for i := range cases {
+		c := &cases[i]
+		fam := family(c.Kind)
+		if fam == "" || c.Panic != "" || c.Skip != "" {
+			continue
+		}
+		other := prev[fam]
+		prev[fam] = c
+		if other == nil || (fam == "rows" && i%4 != 0) || (fam == "tempo" && i%2 != 0) {
+			continue
+		}
+		d := cloneCase(c)
+		d.ID = c.ID + 10000000
+		d.Class = c.Class + "+overlapped"
+		o := cloneCase(other)
+		o.Out, o.With = "", nil
+		d.With = &o
+		runOverlapped(&d)
+		out.Put(d)
+	}
+}
+
+func runOverlapped(d *Case) {
+	if d.With == nil {
+		run(d)
+		return
+	}
+	interleave = func() { oc := cloneCase(d.With); run(&oc) }
+	run(d)
+	interleave = nil
+}
+
+func family(kind string) string {
+	switch kind {
+	case "prommatrix", "promvector", "promscalar", "promerror":
+		return "prom"
+	case "tags", "tagvalues", "trace", "search", "searchql":
+		return "tempo"
+	case "streams", "matrix", "vector":
+		return "rows"
+	}
+	return ""
+}
+
+func cloneCase(c *Case) Case {
+	b, _ := json.Marshal(c)
+	var d Case
+	json.Unmarshal(b, &d)
+	return d
 }
